@@ -146,8 +146,7 @@ func TestC20_P_HamtOrder(t *testing.T) {
 	ev := newEvid(t, c20HamtRule)
 	maxN := scale(300, 2000)
 	rapid.Check(t, func(t *rapid.T) {
-		names, _ := genNames(t, nameOpts{Max: maxN})
-		fanout := genFanout(t)
+		names, _, fanout := genNamesFanout(t, nameOpts{Max: maxN})
 		es := make([]entrySpec, len(names))
 		for i, n := range names {
 			es[i] = entryFor(n, 0)
@@ -283,6 +282,50 @@ func TestC20_P_HamtOrder(t *testing.T) {
 			} else if fmt.Sprint(got) != fmt.Sprint(first) {
 				t.Fatalf("C20 hamt %s: run %d order differs from run 0", opName, rep)
 			}
+		}
+		// a transient storage error in the middle of a full iteration that carries on: the shards below the failed load may
+		// never be requested, but what is requested still comes in depth-first link order (nothing is put off until later)
+		if (opName == "MapIterator" || opName == "Iterator") && len(want) >= 2 {
+			k := rapid.IntRange(1, len(want)).Draw(t, "transientFaultAt")
+			st.FaultKind = genFaultKind(t)
+			pn, err := loadPlain(ls, root)
+			if err != nil {
+				t.Fatal(err)
+			}
+			rn, err := ls.KnownReifiers["unixfs"](lc0, pn, ls)
+			if err != nil {
+				t.Fatal(err)
+			}
+			st.ResetLogs()
+			st.FailReadAt = k
+			must(t, "iteration with a transient fault", func() {
+				budget := 4*len(names) + 4*len(want) + 50
+				if opName == "MapIterator" {
+					for it := rn.MapIterator(); !it.Done() && budget > 0; budget-- {
+						_, _, _ = it.Next()
+					}
+				} else {
+					for it := rn.(nativeDir).Iterator(); !it.Done() && budget > 0; budget-- {
+						it.Next()
+					}
+				}
+				if budget == 0 {
+					t.Fatalf("C20 hamt %s with load #%d failing once: iteration does not finish", opName, k)
+				}
+			})
+			st.FailReadAt, st.FaultKind = 0, 0
+			got := firstOccurrences(st.ReadLog())
+			j := 0
+			for _, c := range got {
+				for j < len(want) && want[j] != c {
+					j++
+				}
+				if j == len(want) {
+					t.Fatalf("C20 hamt fanout=%d n=%d %s with load #%d failing once: request order %v is not a subsequence of the depth-first link order %v", fanout, len(names), opName, k, shortCids(got), shortCids(want))
+				}
+				j++
+			}
+			ev.Count("transient-fault-order", 1)
 		}
 		ev.Case(fmt.Sprintf("f=%d d=%d s=%s %s", fanout, tree.Depth(), bucket(len(want)), opName), tree.Depth() >= 3 && len(want) >= 2,
 			"op:"+opName, fmt.Sprintf("depth:%s", bucket(tree.Depth())), fmt.Sprintf("fanout:%d", fanout))
